@@ -16,6 +16,7 @@ import (
 type TestOnlyViolation struct {
 	Pos         token.Pos
 	TestOnlyObj string // Name of the @testonly object being used
+	TestOnlyPkg string // Package path of a @testonly type (types are deduplicated per package and name)
 	Kind        annotations.TestOnlyKind
 	UsedInFile  string // File where @testonly object is used
 	Reason      string
